@@ -120,9 +120,9 @@ func genRef(ximage, out string) error {
 		}
 	}
 	b, _ := json.MarshalIndent(map[string]any{
-		"source":  "golang.org/x/image v0.0.0-20190802002840-cff245a6509b (vp8, vp8l), BSD-3-Clause, see ref/XIMAGE_LICENSE",
-		"method":  "constant folding of composite literals with go/types; no code was executed",
-		"tables":  keep,
+		"source": "golang.org/x/image v0.0.0-20190802002840-cff245a6509b (vp8, vp8l), BSD-3-Clause, see ref/XIMAGE_LICENSE",
+		"method": "constant folding of composite literals with go/types; no code was executed",
+		"tables": keep,
 	}, "", " ")
 	return os.WriteFile(out, b, 0o644)
 }
